@@ -253,6 +253,7 @@ def step (E : Env) (k : DK ρ) (n : Nat) (i : Instr ρ) (s : St) (pos : Nat) : D
     match ← k r s0 pos with
     | none => .ok none
     | some (p, d) => do
+      callGuard E s.depth v
       let cap ← replaceValue v s.caps d.caps
       .ok (some (p, Delta.append { tagged := d.tagged } (pushDelta E s.acc cap tag)))
   | .matchtime r v tag => do
@@ -260,6 +261,7 @@ def step (E : Env) (k : DK ρ) (n : Nat) (i : Instr ρ) (s : St) (pos : Nat) : D
     match ← k r s0 pos with
     | none => .ok none
     | some (p, d) => do
+      callGuard E s.depth v
       let cap ← replaceValue v s.caps d.caps
       if truthy cap then .ok (some (p, Delta.append { tagged := d.tagged } (pushDelta E s.acc cap tag)))
       else .ok none
